@@ -259,7 +259,10 @@ func mustTree() *merkletree.MerkleTree {
 	return t
 }
 
-func NewIssuer(r *Rng, extraClaims int) *Issuer {
+func NewIssuer(r *Rng, extraClaims int) *Issuer { return NewIssuerWith(r, extraClaims) }
+
+// NewIssuerWith: an identity whose genesis claims tree holds the auth claim and the given claims
+func NewIssuerWith(r *Rng, extraClaims int, genesisClaims ...*core.Claim) *Issuer {
 	ctx := context.Background()
 	is := &Issuer{claims: mustTree(), revs: mustTree(), roots: mustTree()}
 	var skb [32]byte
@@ -277,6 +280,15 @@ func NewIssuer(r *Rng, extraClaims int) *Issuer {
 	hi, hv, _ := ac.HiHv()
 	if err := is.claims.Add(ctx, hi, hv); err != nil {
 		panic(err)
+	}
+	for _, gc := range genesisClaims {
+		ghi, ghv, _ := gc.HiHv()
+		if err := is.claims.Add(ctx, ghi, ghv); err != nil {
+			panic(err)
+		}
+		for i := 0; i < r.Intn(4); i++ {
+			_ = is.claims.Add(ctx, r.BigBelow(poseidonQ()), r.BigBelow(poseidonQ()))
+		}
 	}
 	is.genesis = is.State()
 	did, err := core.NewDIDFromIdenState(didType, is.genesis)
